@@ -84,6 +84,7 @@ def from_bipartite_graph(G, dual=False):
         H = Hypergraph()
 
     H.add_nodes_from(nodes)
+    edge_set = set(edges)
 
     for u, v in G.edges:
         if directed:
@@ -92,6 +93,8 @@ def from_bipartite_graph(G, dual=False):
             else:
                 H.add_node_to_edge(u, v, direction="out")
         else:
+            if u in edge_set:
+                u, v = v, u
             H.add_node_to_edge(v, u)
 
     return H.dual() if dual else H
